@@ -4,18 +4,20 @@
 (*   [route, defect, body, pm, status, changed, disclosed, live, hooks]     *)
 (* bad   : lines that contradict the ABSTRACT rule AbstractOK (verdicts)    *)
 (* drift : lines on which the implementation-shaped model AuthPipeline of   *)
-(*         the code as it is (Fix = {}) predicts something else than what   *)
-(*         was observed at hook level; driftf: those of them that the       *)
-(*         repaired design (all fixes) does not explain either.             *)
+(*         the code as it is (since the fix: commits that is the repaired   *)
+(*         design, all fixes) predicts something else than what was         *)
+(*         observed at hook level; driftf: those of them that the design    *)
+(*         before the repairs (Fix = {}) does not explain either.           *)
 (*         Model-conformance signals, never verdicts: they tell whether the *)
-(*         code under test still is the code that was modelled, has become  *)
-(*         the repaired design, or is something the model does not know.    *)
+(*         code under test still is the code that was modelled, has fallen  *)
+(*         back to the design before a repair, or is something the model    *)
+(*         does not know.                                                   *)
 EXTENDS Integers, Sequences, Json, TLC
 CONSTANTS Bodies, PMs
 VARIABLES l, bad, drift, driftf
 \* the pipeline module is used for its definitions only (its variable is not stepped)
-P == INSTANCE AuthPipeline WITH s <- 0, Fix <- {}
-PF == INSTANCE AuthPipeline WITH s <- 0, Fix <- {"DeferOnlyStreaming", "DrainBeforeEffect", "ChunkLayerPropagates", "LengthErrorIs4xx"}
+P == INSTANCE AuthPipeline WITH s <- 0, Fix <- {"DeferOnlyStreaming", "DrainBeforeEffect", "ChunkLayerPropagates", "LengthErrorIs4xx", "StreamEndChecked"}
+PF == INSTANCE AuthPipeline WITH s <- 0, Fix <- {}
 Trace == ndJsonDeserialize("trace.ndjson")
 
 CaseOf(e) == [route |-> P!RouteById(e.route), defect |-> P!DefectById(e.defect), body |-> e.body, pm |-> e.pm]
